@@ -107,6 +107,12 @@ impl Violation {
             rank: 0,
         }
     }
+    pub fn with_replay_field(mut self, k: &str, v: Value) -> Self {
+        if let Some(o) = self.replay.as_object_mut() {
+            o.insert(k.to_string(), v);
+        }
+        self
+    }
     pub fn rank(mut self, r: u64) -> Self {
         self.rank = r;
         self
